@@ -147,8 +147,11 @@ func (i *interpreter) fmtString(verb string, s value) value {
 	if verb == "%s" || verb == "%v" {
 		return s
 	}
-	i.unsupported("fmt verb %s on a symbolic string", verb)
-	return nil
+	// Other verbs (%q, widths) on symbolic text: rendered opaquely. Such
+	// strings are error-message text; comparing them is meaningless.
+	i.ex.run.noteStub("fmt: verb " + verb + " applied to symbolic text yields an opaque placeholder")
+	i.ex.opaqueFmt++
+	return "⟨fmt" + verb + ":symbolic-text⟩"
 }
 
 // sprintf implements the formatting of format with args ([]iface values).
